@@ -1,10 +1,27 @@
+_T = "symbolic execution of the real Go SSA (voiverif) + SMT (z3 4.8.12 / z3 5.1.0 / cvc5 1.0.3): "
+_N = "trusted: solver verdicts; the voiverif SSA->SMT encoder (Int translation cross-checked against bit-vector semantics on sample points per obligation); go/ssa lowering; bounds and assumptions are listed in the evidence file (coverage.bounds, assumptions)"
 CLAIMED = {
- "C04": {"technique":"bounded symbolic execution of the field kernels from go/ssa; SMT (Int mode with deferred reduction + BV mode), contracts proved and reused",
-         "text":"Every limb vector inside the stated headroom is a solver variable; each kernel's value congruence, output bounds and frame are discharged by z3/cvc5 (or closed by the exact polynomial normaliser that feeds them); counterexamples are replayed natively.",
-         "note":"solver verdicts; the voiverif SSA->SMT encoder (validated per obligation against bit-vector semantics on sample points); go/ssa lowering; bounds: see evidence.bounds"},
- "C05": {"technique":"bounded symbolic execution of scalar kernels and byte predicates from go/ssa; SMT BV mode / Int mode",
-         "text":"All 2^256 strings for the canonicity predicates; solver-decided equivalence with the integer comparison against L.",
-         "note":"solver verdicts; encoder; go/ssa lowering"},
+ "C03": {"technique": _T + "L1 polynomial identities of the point formulas against the affine Edwards law with limb-headroom obligations on both Go back ends; L2 scalar-multiplication algorithms over a free Z-module ghost with proved contracts",
+         "text": "Within the stated bounds every projective representative / every 255-bit scalar / every digit is a solver variable; identities are discharged as integer-arithmetic queries (or closed by the exact polynomial normaliser feeding them). Covers Add/Sub/Neg/double/Niels forms/Equal, constant-time lookups, variable-base and fixed-base table multiplication; see DESIGN.md for what is not yet covered (Straus, Pippenger, double-base, vector back end).",
+         "note": _N + "; completeness of the unified Edwards law (a=-1, d non-square) is trusted mathematics"},
+ "C04": {"technique": _T + "Int mode with deferred reduction for the multiplication kernels, BV mode for masks/selects; contracts proved per back end (portable 64-bit, 32-bit) and reused",
+         "text": "Every limb vector inside the stated headroom is a solver variable; each kernel's value congruence mod p, output bounds and frame condition are discharged; counterexamples are replayed natively.",
+         "note": _N + "; amd64 assembly and AVX2 lanes are outside this claim until the asm front end lands"},
+ "C05": {"technique": _T + "Int mode for Montgomery arithmetic on both back ends, BV mode for byte predicates; API-level composition by proved contracts",
+         "text": "All 2^256 strings for the canonicity predicates and all 256-bit operands for Add/Sub/Neg/Mul/Reduce/wide reduction; results are shown canonical and congruent mod L.",
+         "note": _N + "; inversion chains not yet covered"},
+ "C10": {"technique": _T + "BV equivalence for IsCanonicalVartime over all 2^256 strings; Int-mode decode obligations over the abstract field layer; case-split input lengths 0..65 for the unmarshallers",
+         "text": "Canonicity predicate decided for every string; SetCompressedY accept/reject, curve relation, sign and receiver behaviour for every string on both Go back ends; wrong-length handling for every length in the window.",
+         "note": _N + "; Euler's criterion (SqrtRatioI completeness) is trusted; Montgomery conversions and subgroup predicates not yet covered"},
+ "C11": {"technique": _T + "Int-mode structural equivalence of SetCompressed with an RFC 9496 decode model sharing the SQRT_RATIO_M1 symbol; case-split lengths for unmarshalling",
+         "text": "Accept/reject decision and resulting coordinates equal the RFC's for every 32-byte string on both Go back ends; wrong-length inputs are errors for every length 0..65.",
+         "note": _N + "; encode, Equal coset-invariance and the one-way map are not yet covered"},
+ "C17": {"technique": _T + "Int mode with telescoping carries for Bits/ToRadix16/ToRadix2w (all 2^255 scalars); loop cut with an inductive invariant (one symbolic iteration of the real loop) for NonAdjacentForm, case-split on window position and width",
+         "text": "Value reconstruction and digit ranges for every 255-bit scalar; NAF value and shape invariants preserved by one iteration from an arbitrary state, entry and exit conditions discharged.",
+         "note": _N + "; quick tier samples window positions (word seams, top), thorough covers every position"},
+ "C20": {"technique": _T + "constants obtained by symbolically executing the real package initialisers per back end, each pinned to a solver variable; defining relations mod p are closed integer queries; doubling witnesses proposed by the real code and verified by the affine law",
+         "text": "Curve/field constants, base point, eight torsion points by value, fixed-base table rows and both odd-multiple tables on both Go limb encodings.",
+         "note": _N + "; scalar-side and elligator constants, and the start-up vector tables, not yet covered"},
 }
-_todo = "machinery not completed yet in this session (engine exists; harness for this property not yet written)"
+_todo = "machinery not completed yet in this session: the engine exists, the harness for this property is still being written (see DESIGN.md section 9)"
 NOT_APPLICABLE = {f"C{n:02d}": _todo for n in range(1,21)}
